@@ -62,6 +62,9 @@ def gen_target(rng):
         fields.append([fn, t + (f"[{ln}]" if ln else "")])
     if rng.random() < 0.1:
         name += "_" + rng.choice(NONASCII).upper()
+    if fields and rng.random() < 0.2:
+        # a field named with a plain word that older YAML versions read as a boolean
+        fields[rng.randrange(len(fields))][0] = rng.choice(["on", "off", "yes", "no"])
     return {"name": name, "id": mid, "fields": fields}
 
 
@@ -99,6 +102,10 @@ def surround(t, rng, variant):
     if variant == "diamond":
         return {"r.yaml": "imports:\n  - a.yaml\n  - b.yaml\nmessage_defs:\n" + other_a + "\n", "a.yaml": "imports:\n  - lib.yaml\n", "b.yaml": "imports:\n  - ./lib.yaml\n",
                 "lib.yaml": consts + "message_defs:\n" + tgt + "\n"}, "r.yaml"
+    if variant == "after_yaml11_import":
+        # an unrelated file of the import graph that declares an older YAML version is read first
+        return {"r.yaml": "imports:\n  - legacy.yaml\n  - lib.yaml\nmessage_defs:\n" + other_a + "\n", "legacy.yaml": "%YAML 1.1\n---\nconstants:\n  K_OLD: 3\n",
+                "lib.yaml": consts + "message_defs:\n" + tgt + "\n"}, "r.yaml"
     if variant == "importer_of_consts":
         return {"r.yaml": "imports:\n  - k.yaml\nmessage_defs:\n" + tgt + "\n", "k.yaml": consts}, "r.yaml"
     if variant == "fields_before_id":
@@ -119,7 +126,7 @@ def surround(t, rng, variant):
     raise ValueError(variant)
 
 
-VARIANTS = ["plain", "comments", "others_before", "others_after", "sections_reordered", "imported", "subdir", "diamond", "importer_of_consts", "indent4", "fields_before_id", "flow_style"]
+VARIANTS = ["plain", "comments", "others_before", "others_after", "sections_reordered", "imported", "subdir", "diamond", "importer_of_consts", "indent4", "fields_before_id", "flow_style", "after_yaml11_import"]
 
 
 def edits(t, rng):
